@@ -45,7 +45,8 @@ class C01Machine(Machine):
         "probe_equals_prefix", "probe_one_short", "split_delivery", "dup_rejected", "clash_rejected",
         "confluence_group", "chain_parts", "multi_char_delimiter", "non_bmp_probe_matched",
         "piece_carrier_canonical", "piece_carrier_synonym", "piece_carrier_via_uri", "piece_carrier_restated",
-        "chain_parts_overlapping",
+        "chain_parts_overlapping", "delivery_not_observed", "catch_up_observation",
+        "derived_view_extended_before_first_look", "piece_into_loaded_record",
         "bulk_via_ctor", "bulk_via_epm", "bulk_via_priority", "bulk_via_reverse", "large_owner_map", "derived_view_sub", "derived_view_chain_self", "derived_view_rewire", "derived_view_remap_uri",
         "derived_view_remap_curie", "record_with_pattern", "piece_with_pattern", "records_given_as_generator", "records_given_as_iterator",
         "records_given_as_dict_values", "records_given_as_tuple", "records_given_as_map", "more_than_256_uri_prefixes",
@@ -70,6 +71,9 @@ class C01Machine(Machine):
             "p_dup": rng.choice([0.0, 0.15, 0.3]),
             "p_add_prefix": rng.choice([0.2, 0.5, 0.8]),
             "p_chain_parts": rng.choice([0.0, 0.0, 0.2]),
+            # how often the converter is looked at: after every step, or only every k-th delivery, or only
+            # at the end of a schedule (a loaded converter that is extended before its first lookup)
+            "check_every": rng.choice([1, 1, 1, 1, 1, 2, 3, 99]),
         }
         huge = large and rng.random() < 0.05      # past 256 records / URI prefixes
         cfg["huge"] = huge
@@ -110,6 +114,9 @@ class C01Machine(Machine):
         self.schedule_no = 0
         self.focus = []
         self.delimiter_given = None
+        self.check_every = int(config.get("check_every", 1))
+        self.n_deliveries = 0
+        self.dirty = False
 
     # ----------------------------------------------------------- generation
     def gen_op(self, rng):
@@ -162,6 +169,29 @@ class C01Machine(Machine):
         if cfg.get("huge"):
             n_first = max(n_first, len(recs) - rng.randint(3, 40))
         first = recs[:n_first]
+        later0 = []
+        if not cfg.get("huge"):
+            # a record of the bulk part may also be split: its head goes to the constructor / loader, (some
+            # of) its URI-prefix synonyms arrive later as merges into that loaded record
+            first2 = []
+            for r in first:
+                if r["uri_prefix_synonyms"] and rng.random() < cfg["p_split"]:
+                    keep = [u for u in r["uri_prefix_synonyms"] if rng.random() < 0.3]
+                    first2.append(dict(r, uri_prefix_synonyms=keep))
+                    for u in r["uri_prefix_synonyms"]:
+                        if u in keep:
+                            continue
+                        carrier = rng.choice(["canonical", "synonym", "via_uri", "restated"])
+                        if carrier == "synonym" and not r["prefix_synonyms"]:
+                            carrier = "canonical"
+                        later0.append({"op": "merge_piece", "prefix": r["prefix"], "uri_prefix": u, "schedule": k,
+                                       "carrier": carrier, "pattern": rng.choice([None, None, r.get("pattern"), "^x$"]),
+                                       "carrier_prefix": r["prefix_synonyms"][0] if carrier == "synonym" else None,
+                                       "anchor_uri": r["uri_prefix"], "into_loaded_record": True,
+                                       "via": "add_prefix" if rng.random() < 0.5 else "add_record"})
+                else:
+                    first2.append(r)
+            first = first2
         # the bulk part may also arrive through a loader ("supplied" covers every way records get in)
         via = rng.choice(["ctor", "ctor", "epm", "priority", "reverse"])
         if via in ("priority", "reverse") and any(r["prefix_synonyms"] for r in first):
@@ -174,8 +204,7 @@ class C01Machine(Machine):
             rng.shuffle(pairs)
             step0["rpm_pairs"] = pairs
         steps.append(step0)
-        pending = []  # (record, list of later pieces)
-        later = []
+        later = list(later0)
         for r in recs[n_first:]:
             kind = "add_prefix" if rng.random() < cfg["p_add_prefix"] else "add_record"
             if r["uri_prefix_synonyms"] and rng.random() < cfg["p_split"]:
@@ -211,10 +240,10 @@ class C01Machine(Machine):
         if rng.random() < 0.3:
             allp = [r["prefix"] for r in recs] + [x for r in recs for x in r["prefix_synonyms"]]
             tail.append({"op": "derived_view", "kind": "sub", "schedule": k,
-                         "prefixes": [p for p in allp if rng.random() < 0.6]})
+                         "prefixes": [p for p in allp if rng.random() < 0.6], "follow_up": rng.random() < 0.5})
         if rng.random() < 0.2:
             tail.append({"op": "derived_view", "kind": "chain_self", "schedule": k,
-                         "case_sensitive": rng.random() < 0.5})
+                         "case_sensitive": rng.random() < 0.5, "follow_up": rng.random() < 0.5})
         if rng.random() < 0.25 and recs:
             # a converter produced by a reconciliation function: C01 must hold over ITS OWN records
             r0 = rng.choice(recs)
@@ -225,7 +254,8 @@ class C01Machine(Machine):
                 mapping = [[rng.choice([r0["uri_prefix"], *r0["uri_prefix_synonyms"]]), rng.choice(cfg["uri_pool"] + ["n:9/"])]]
             else:
                 mapping = [[r0["prefix"], rng.choice(cfg["curie_pool"] + ["new9"])]]
-            tail.append({"op": "derived_view", "kind": kind2, "mapping": mapping, "schedule": k})
+            tail.append({"op": "derived_view", "kind": kind2, "mapping": mapping, "schedule": k,
+                         "follow_up": rng.random() < 0.5})
         # interleave the later pieces at seeded positions after their head
         for piece in later:
             key = piece["prefix"] if "prefix" in piece else piece.get("anchor", piece["record"]["prefix"])
@@ -275,7 +305,15 @@ class C01Machine(Machine):
         for u in ([rd["uri_prefix"], *rd["uri_prefix_synonyms"]] if only_uris is None else only_uris):
             self.owners.register(u, rd["prefix"])
 
+    def _catch_up(self):
+        if self.dirty and self.conv is not None:
+            self.dirty = False
+            self.focus = []
+            self.probe("catch_up_observation")
+            self._check("first look after unobserved deliveries")
+
     def _new_schedule(self):
+        self._catch_up()
         if self.conv is not None:
             self.finals.append(self._final_answers())
         self.conv = None
@@ -303,6 +341,7 @@ class C01Machine(Machine):
         kind = op["op"]
         site = kind
         if kind == "confluence":
+            self._catch_up()
             if self.conv is not None:
                 self.finals.append(self._final_answers())
                 self.conv = None
@@ -323,6 +362,7 @@ class C01Machine(Machine):
             # over the owner map it denotes (sub-converter: the records named; chain of itself: all)
             if self.conv is None:
                 return {"skipped": True}
+            self._catch_up()
             base, base_owners = self.conv, self.owners
             if op["kind"] == "sub":
                 derived = base.get_subconverter(list(op["prefixes"]))
@@ -362,9 +402,18 @@ class C01Machine(Machine):
                     for u in [r.uri_prefix, *r.uri_prefix_synonyms]:
                         owners.register(u, r.prefix)
                 site = op["kind"]
+            if op.get("follow_up"):
+                # the derived converter is extended BEFORE it is looked at for the first time
+                try:
+                    derived.add_prefix("dvnew", "dv:new/", uri_prefix_synonyms=["dv:new/x_"])
+                    owners.register("dv:new/", "dvnew")
+                    owners.register("dv:new/x_", "dvnew")
+                    self.probe("derived_view_extended_before_first_look")
+                except ValueError:
+                    pass
             self.conv, self.owners = derived, owners
             try:
-                self.focus = []
+                self.focus = ["dv:new/1", "dv:new/x_1"] if op.get("follow_up") else []
                 self._check(site)
             finally:
                 self.conv, self.owners = base, base_owners
@@ -429,7 +478,10 @@ class C01Machine(Machine):
                 new_uris = [op["uri_prefix"]]
             else:
                 new_uris = []
-            self.focus = [u + "1" for u in new_uris[-2:]][::-1]
+            self.n_deliveries += 1
+            observed = self.check_every == 1 or self.n_deliveries % self.check_every == 0
+            self.observed_now = observed
+            self.focus = [u + "1" for u in new_uris[-2:]][::-1] if observed else []
             for f in reversed(self.focus):
                 observe.call(conv.is_uri, f)
                 observe.call(conv.compress, f)
@@ -469,6 +521,8 @@ class C01Machine(Machine):
                 else:
                     pr, up, ups = op["prefix"], op["uri_prefix"], []
                 self.probe("piece_carrier_" + carrier)
+                if op.get("into_loaded_record"):
+                    self.probe("piece_into_loaded_record")
                 if op["via"] == "add_record":
                     conv.add_record(Record(prefix=pr, uri_prefix=up, uri_prefix_synonyms=ups, pattern=op.get("pattern")),
                                     merge=True)
@@ -490,7 +544,7 @@ class C01Machine(Machine):
                 if not delivered:
                     self.event("dup_skipped")
                     return {"skipped": True}
-                before = self._answers()
+                before = self._answers() if self.observed_now else None
                 rejected = False
                 try:
                     if op["via"] == "add_record":
@@ -507,15 +561,30 @@ class C01Machine(Machine):
                     # here the submission then simply counts as delivered
                     self.event("dup_accepted")
                     self._register(r)
-                after = self._answers()
-                if rejected and after != before:
+                after = self._answers() if self.observed_now else None
+                if rejected and self.observed_now and after != before:
                     raise Violation(PROP, "answers_changed_by_rejected_duplicate", site,
                                     {"diff": observe.diff(before, after)})
             else:
                 raise ValueError(f"unknown op {kind}")
-        self._check(site)
+        if kind == "ctor":
+            # the converter as loaded: looked at right away only in the every-step mode
+            observed = self.check_every == 1
+        elif kind == "chain_parts":
+            observed = True
+        else:
+            observed = getattr(self, "observed_now", True)
+        if observed:
+            if self.dirty:
+                self._catch_up()
+            else:
+                self._check(site)
+        else:
+            self.dirty = True
+            self.focus = []
+            self.probe("delivery_not_observed")
         self.note_state(sorted(self.owners.owners.items()), kind, None)
-        return {"owners": len(self.owners.owners)}
+        return {"owners": len(self.owners.owners), "observed": observed}
 
     def _final_answers(self):
         return {"delimiter": self.conv.delimiter, "answers": self._answers()}
@@ -587,9 +656,7 @@ class C01Machine(Machine):
                                 {"uri": u, "got": goti, "expected": want is not None})
 
     def finish(self):
-        if self.conv is not None and self.finals:
-            # a confluence group whose last op was removed by minimisation
-            pass
+        self._catch_up()
 
     def nontrivial(self):
         return self.saw_nested and self.saw_multi and self.saw_incremental
